@@ -251,6 +251,22 @@ theorem san_exact_cert {κ : Type} {g : Fixes} (hg : g.comma = true) {encode : C
   obtain ⟨hk, vs, rest, more, hch, hc⟩ := cert_identity_from_leaf_san hr
   exact ⟨hk, vs, rest, more, d, hch, hl, by rw [hsan, hc]⟩
 
+/-- Client certificate over a real handshake, end to end: a certificate is issued only to a peer whose
+    own certificate chains to a root registered for the trust domain of its single URI SAN; the new
+    certificate's SANs are the SAN values of that peer certificate. -/
+theorem san_exact_tlscert {κ : Type} {g : Fixes} (hg : g.comma = true) {encode : CertData → κ} {decode : κ → CertData}
+    (hdec : ∀ d, decode (encode d) = d) {srv : Server} {ctx : Ctx} {req : Request} {now : Int} {chain : List (Entry κ)}
+    {pools : List (String × List String)} {peer : Option (PLeaf × List CACert)} {r : AuthRes}
+    (hacc : tlsCertAuthenticate pools peer = some r) (himp : req.impersonated = "")
+    (h : createCertificateFull g encode srv ctx [r] req now = .ok chain) :
+    ∃ leaf ints u td ns sa roots d, peer = some (leaf, ints) ∧ leaf.uris = [u] ∧ parseIdentity u = some (td, ns, sa) ∧
+      poolOf pools td = some roots ∧ chainsTo roots ints (ints.length + 1) leaf.issuer = true ∧
+      leafData decode (.ok chain) = some d ∧ d.tmpl.san = leaf.values.map classify := by
+  obtain ⟨c, d, hr, hl, hsan⟩ := san_exact_single hg hdec himp h
+  rw [hr] at hacc
+  obtain ⟨leaf, ints, u, td, ns, sa, roots, hp, hu, hpi, hpool, hch, _, hc⟩ := tls_cert_root_scoped hacc
+  exact ⟨leaf, ints, u, td, ns, sa, roots, d, hp, hu, hpi, hpool, hch, hl, by rw [hsan, hc]⟩
+
 theorem firstCaller_single {r : AuthRes} {c : Caller} (h : firstCaller [r.toOut] = some c) : r = .ok c := by
   cases r with
   | crash => simp [AuthRes.toOut, firstCaller] at h
